@@ -35,6 +35,7 @@ type c05Spec struct {
 	Hooks         []*hookRule `json:"hooks,omitempty"`
 	WaitHit       string      `json:"wait_hit,omitempty"` // pair plans: latch the driver waits for before it triggers the stop
 	DoneStorm     *doneStorm  `json:"done_storm,omitempty"`
+	GoMaxProcs    int         `json:"gomaxprocs,omitempty"` // the child runs with GOMAXPROCS=<n>
 	// FailStart: modules (module management on) that are not enabled at Start. Afterwards
 	// they are enabled; the first ManageModules pass runs their start routine, which
 	// launches its cycle-1 items and then fails; a second pass starts them successfully.
@@ -153,8 +154,12 @@ func c05Child(dir string, raw []byte) {
 		begun: map[string]bool{}, preTsk: map[string]*modules.Task{}}
 	h.hs = &hookSet{log: h.log, lat: h.lat, rules: spec.Hooks, rnd: vlib.NewRand(spec.Seed, "c05/hookdelay", uint64(spec.Case))}
 	h.hs.install("modules.stop.ctrlset", "modules.stop.flagged", "modules.stop.cancelled", "modules.stop.timeout",
-		"modules.stop.check", "modules.worker.dec", "modules.task.defer", "modules.task.prelock", "modules.mt.conclude",
-		"modules.ctrlfn.done", "modules.ctrlfn.sent", "modules.task.cleared")
+		"modules.task.defer", "modules.task.prelock", "modules.mt.conclude", "modules.ctrlfn.done", "modules.ctrlfn.sent", "modules.task.cleared")
+	if spec.Class != "svcloop" {
+		// (not with service workers that restart all the time: a per-run decrement, should
+		// portbase ever do one, would pass these points millions of times)
+		h.hs.install("modules.stop.check", "modules.worker.dec")
+	}
 
 	// internal watchdog: keep the event log if the scenario wedges
 	go func() {
@@ -302,6 +307,9 @@ func (h *c05H) run() {
 	h.setPhase("post")
 	h.p4Probes("post")
 	time.Sleep(10 * time.Millisecond)
+	if sp.Class == "svcloop" {
+		time.Sleep(40 * time.Millisecond) // let goroutines that were parked in a restart loop run on
+	}
 	h.log.Rec("fin", "driver", "", nil)
 }
 
@@ -486,6 +494,33 @@ func (h *c05H) launch(it *c05Item) {
 		m.StartWorker(it.ID, wfn)
 	case kWorkerRun:
 		blocking("RunWorker", func() error { return m.RunWorker(it.ID, wfn) })
+	case "svc_loop":
+		var first atomic.Bool
+		var late atomic.Int32
+		m.StartServiceWorker(it.ID, time.Millisecond, func(ctx context.Context) error {
+			if ctx.Err() == nil {
+				// before the stop: not recorded (except the first invocation), just restart
+				if first.CompareAndSwap(false, true) {
+					h.log.Rec("loopfirst", it.ID, "svc_loop", map[string]any{"mod": it.mod.Name})
+					h.mu.Lock()
+					h.begun[it.ID] = true
+					h.mu.Unlock()
+					h.lat.fire("item.begin|" + it.ID)
+				}
+				if it.RunMs > 0 {
+					return errors.New("harness svc error")
+				}
+				return modules.ErrRestartNow
+			}
+			// invoked with a cancelled context: recorded as a piece of work of its own
+			who := fmt.Sprintf("%s#c%d", it.ID, late.Add(1))
+			h.log.Rec("begin", who, "svc_loop", map[string]any{"mod": it.mod.Name})
+			h.log.Rec("ctx", who, "svc_loop", map[string]any{"done": true})
+			pre := h.log.Now()
+			st := m.Status()
+			h.log.Rec("end", who, "svc_loop", map[string]any{"status": int(st), "mod": it.mod.Name, "pre": pre})
+			return modules.ErrRestartNow // portbase itself has to end the loop
+		})
 	case kSvc:
 		var inv int
 		m.StartServiceWorker(it.ID, time.Millisecond, func(ctx context.Context) error {
